@@ -147,6 +147,51 @@ inline void Driver::syncReplica(Inst& a, Inst& r) {
 #endif
 }
 
+inline void Driver::copyExperiment(Inst& a, long k) {
+	// copy-construct, run original and copy in lock-step, destroy the original first, keep using the copy
+	Inst& c = make(3, false);
+	c.ctx = &a.probe;
+	c.probe.step = (uint64_t)k;
+	c.mem = malloc(sizeof(Instance));
+	{ unsigned char* b = (unsigned char*)c.mem; uint64_t z = 77; for (size_t i = 0; i < sizeof(Instance); ++i) { z = mix(z); b[i] = (unsigned char)z; } }
+	opBegin(c, OP_COPY);
+	c.m = new (c.mem) Instance(*a.m);
+	c.active = a.active;
+	opEnd(c);
+	const void* keepThis[1024];
+	const int lock = 6 + (int)(next() % 10);
+	for (int i = 0; i < lock; ++i) {
+		const uint64_t savedDriver = s; const int savedId = idCounter; const uint64_t savedProbe = a.probe.s;
+		c.probe.s = a.probe.s;
+		stepAuthority(a, k);
+		const uint64_t afterDriver = s; const int afterId = idCounter;
+		s = savedDriver; idCounter = savedId; a.probe.s = savedProbe;
+		memcpy(keepThis, a.probe.expectThis, sizeof keepThis);
+		vhFillThis(*c.m, a.probe);
+		stepAuthority(c, k);
+		memcpy(a.probe.expectThis, keepThis, sizeof keepThis);
+		if (s != afterDriver || idCounter != afterId) { log.tag('V'); log.s("C10.copy|driver-consumed-different-randomness"); log.nl(); }
+		a.probe.s = c.probe.s;
+	}
+	// the original goes first; its storage is poisoned and released
+	destroy(a, k);
+	vhFillThis(*c.m, a.probe);
+	for (int i = 0; i < 8; ++i) stepAuthority(c, k);
+	// destroy the copy, start over with a fresh authority
+	{
+#if VH_MANUAL
+		if (c.active) { opBegin(c, OP_EXIT); c.m->exit(); c.active = false; opEnd(c); }
+#endif
+		opBegin(c, OP_DESTROY, c.active); c.m->~Instance(); VH_LIB_LEAVE(); log.tag('D'); log.i(0); log.nl(); log.tag('E'); log.nl();
+		memset(c.mem, 0xDD, sizeof(Instance)); free(c.mem); c.mem = nullptr; c.m = nullptr;
+	}
+	for (int st = 0; st < VH_SHAPE.nStates; ++st) { a.probe.expectThis[st] = nullptr; a.probe.firstThis[st] = nullptr; }
+	construct(a, k);
+#if VH_MANUAL
+	opBegin(a, OP_ENTER); a.probe.noCancel = true; doEnter(a); a.probe.noCancel = false; opEnd(a);
+#endif
+}
+
 inline void Driver::stepAuthority(Inst& in, long k) {
 	Probe& p = in.probe;
 	p.step = (uint64_t)k;
@@ -177,9 +222,10 @@ inline void Driver::stepAuthority(Inst& in, long k) {
 	case OP_REACT2:
 		opBegin(in, op); externalBatch(in); m.react(Evt2{(int)k}); opEnd(in); break;
 	case OP_QUERY: {
-		opBegin(in, op);
 		const std::string before = cfgKey(m, *p.sh);
+		opBegin(in, op);
 		Qry q{0}; static_cast<const Instance&>(m).query(q);
+		VH_LIB_LEAVE();
 		if (cfgKey(m, *p.sh) != before) { log.tag('V'); log.s("C05.query-changed-state"); log.nl(); }
 		log.tag('v'); log.i(q.visited); log.nl();
 		opEnd(in); break; }
@@ -268,6 +314,7 @@ inline int Driver::run() {
 #endif
 		stepAuthority(a, k);
 		if (rep) syncReplica(a, *rep);
+		if (copies && !rep && (int)(next() % 1000) < copies) copyExperiment(a, k);
 #ifdef VH_SERIAL
 		if (wb && (int)(next() % 100) < wSaveLoad) {
 			const int saved = lastOp;
@@ -299,7 +346,12 @@ inline int Driver::run() {
 #ifdef HFSM2_VERIF
 	ah = g_assertHits;
 #endif
-	log.tag('Z'); log.i(steps); log.i((long)cb); log.i((long)wfc); log.i((long)wfv); log.i((long)tv); log.i(ah); log.nl();
+	long allocs = -1;
+#ifdef VH_ALLOC_HOOK
+	allocs = g_libAllocs;
+	if (g_libAllocs) { log.tag('V'); log.s("C11.alloc|library-call-allocated-dynamic-memory"); log.i(g_libAllocs); log.i(g_firstAllocStep); log.nl(); }
+#endif
+	log.tag('Z'); log.i(steps); log.i((long)cb); log.i((long)wfc); log.i((long)wfv); log.i((long)tv); log.i(ah); log.i(allocs); log.nl();
 	return 0;
 }
 
